@@ -321,7 +321,7 @@ def draw_forms(draw, case):
     case["intcoords"] = draw(st.booleans())
     case["dvtype"] = draw(st.sampled_from(DVTYPES))
     case["cfg"] = {"sort": draw(st.booleans()), "dupwarn": draw(st.booleans())}
-    if draw(st.integers(0, 5)) == 0:
+    if draw(st.sampled_from([False] * 7 + [True])):
         mx = max([abs(x) for v in case["V"] for x in v] + [0.0])
         if mx < 1e15 and all(x == 0.0 or abs(x) > 1e-15 for v in case["V"] for x in v):
             # low precision point array: the coordinates ARE the float32 values
